@@ -76,7 +76,7 @@ def run_history(h, seed, hid):
         out.append(t)
     if not out:
         out.append(dict(id=hid * 100, meta=dict(meta, driver_exc=exc, empty=True), tol=tol, scale=1.0,
-                        dropped=0, events=[dict(e="raise", exc="NoSolve", msg=str(exc))],
+                        dropped=0, events=[dict(e="raise", exc="NoSolve", expl=0, msg=str(exc))],
                         descent=0, cert=0, critval=0, haswouter=0))
     return out
 
